@@ -371,7 +371,9 @@ def storeTriggeredAppointment (s : Tower) (node : Node) (k : Uuid) (a : Appt) (d
     let s1 := storeAppointment s k a
     let (s2, st, log) := handleBreach s1 node k dispute penalty a.user
     if st.isRejected then (deleteAppointments s2 [k] false, log) else (s2, log)
-  | none => (s, [])
+  -- undecryptable: nothing is stored, and when this was an update the version it was charged against
+  -- goes too (`if appointment_exists { delete_appointments([uuid], false) }`)
+  | none => (deleteAppointments s [k] false, [])
 
 inductive Reply where
   | registered (slots start expiry : Nat)
